@@ -1752,6 +1752,10 @@ fn oracle_queue_directed<W: BitArray>(rng: &mut Rng, reps: usize, rep: &mut Repo
             let view: Vec<W> = c.get_compressed().to_vec();
             let l2 = c.len();
             let v = c.into_compressed().unwrap_infallible();
+            if view != v || l2 != l {
+                rep.fail("C08", format!("{} | getc | len | export => guard {} export {} len {:x} -> {:x}", desc, show_words(&view), show_words(&v), l, l2));
+                continue;
+            }
             if unpack(&v) != padded || v.len() != n.div_ceil(w) {
                 // format, not C16: the FIFO check through the decoder below is the property
                 rep.count("C16.export_format_differs");
@@ -1762,10 +1766,6 @@ fn oracle_queue_directed<W: BitArray>(rng: &mut Rng, reps: usize, rep: &mut Repo
                 if got != bs {
                     rep.fail("C16", format!("{} | todec | drain => {} expected the written bits first", desc, show_bits(&got)));
                 }
-                continue;
-            }
-            if view != v || l2 != l {
-                rep.fail("C08", format!("{} | getc | len | export => guard {} export {} len {:x} -> {:x}", desc, show_words(&view), show_words(&v), l, l2));
                 continue;
             }
             if l != n || e != (n == 0) || e != v.is_empty() {
@@ -1829,6 +1829,157 @@ fn oracle_queue_directed<W: BitArray>(rng: &mut Rng, reps: usize, rep: &mut Repo
         }
     }
     rep.count(&format!("C16.directed.queue.W{}", w));
+}
+
+/// C08 twin run around `get_compressed()`: after every number of written bits (word multiples
+/// included) take one or two guard views, drop them, and compare everything observable with a
+/// twin that holds the same bits and was never inspected: the view itself (= what the twin
+/// exports), `len` / `is_empty`, and — after writing `m` more bits to both — the final export and
+/// what reading back yields.  One function per coder because `get_compressed` is not generic.
+fn guard_twin_queue<W: BitArray>(bs: &[bool], views: usize, more: &[bool], rep: &mut Report) {
+    let w = W::BITS;
+    let desc = format!("bits.queue {:x} | new | ws {}", w, show_bits(bs));
+    // two identically treated inspected coders: one is exported, the other one read back
+    for readback in [false, true] {
+        let mut c = queue_of::<W>(bs);
+        let mut twin = queue_of::<W>(bs);
+        let mut d = desc.clone();
+        for _ in 0..views {
+            d.push_str(" | getc");
+            rep.eval("C08");
+            let view: Vec<W> = c.get_compressed().to_vec();
+            let exp = queue_of::<W>(bs).into_compressed().unwrap_infallible();
+            if view != exp {
+                rep.fail("C08", format!("{} => guard shows {} but a freshly encoded twin with the same bits exports {}", d, show_words(&view), show_words(&exp)));
+                return;
+            }
+        }
+        // (a) size / emptiness
+        rep.eval("C08");
+        rep.eval("C18");
+        let (l, e, tl, te) = (c.len(), SymbolCoder::is_empty(&c), twin.len(), SymbolCoder::is_empty(&twin));
+        if l != tl || e != te {
+            rep.fail("C08", format!("{} | len | empty => {:x} {} but the uninspected twin reports {:x} {}", d, l, e, tl, te));
+            if tl == bs.len() {
+                rep.fail("C18", format!("{} | len | empty => {:x} {} but {:x} bits were written", d, l, e, bs.len()));
+            }
+            return;
+        }
+        // (b) keep writing, then finish
+        if !more.is_empty() {
+            d.push_str(&format!(" | ws {}", show_bits(more)));
+        }
+        for &b in more {
+            c.write_bit(b).unwrap_infallible();
+            twin.write_bit(b).unwrap_infallible();
+        }
+        rep.eval("C08");
+        if !readback {
+            let v = c.into_compressed().unwrap_infallible();
+            let tv = twin.into_compressed().unwrap_infallible();
+            if v != tv {
+                rep.fail("C08", format!("{} | export => {} but the uninspected twin exports {}", d, show_words(&v), show_words(&tv)));
+                return;
+            }
+        } else {
+            rep.eval("C16");
+            let got: Vec<bool> = c.into_decoder().unwrap_infallible().map(|b| b.unwrap_infallible()).collect();
+            let tgot: Vec<bool> = twin.into_decoder().unwrap_infallible().map(|b| b.unwrap_infallible()).collect();
+            if got != tgot {
+                rep.fail("C08", format!("{} | todec | drain => {} but the uninspected twin yields {}", d, show_bits(&got), show_bits(&tgot)));
+                return;
+            }
+            let mut all = bs.to_vec();
+            all.extend(more.iter());
+            if got.len() < all.len() || got[..all.len()] != all[..] {
+                rep.fail("C16", format!("{} | todec | drain => {} does not start with the written bits {}", d, show_bits(&got), show_bits(&all)));
+                return;
+            }
+        }
+    }
+}
+
+fn guard_twin_stack<W: BitArray>(bs: &[bool], views: usize, more: &[bool], rep: &mut Report) {
+    let w = W::BITS;
+    let desc = format!("bits.stack {:x} | new | ws {}", w, show_bits(bs));
+    for readback in [false, true] {
+        let mut c = stack_of::<W>(bs);
+        let mut twin = stack_of::<W>(bs);
+        let mut d = desc.clone();
+        for _ in 0..views {
+            d.push_str(" | getc");
+            rep.eval("C08");
+            let view: Vec<W> = c.get_compressed().to_vec();
+            let exp = stack_of::<W>(bs).into_compressed().unwrap_infallible();
+            if view != exp {
+                rep.fail("C08", format!("{} => guard shows {} but a freshly encoded twin with the same bits exports {}", d, show_words(&view), show_words(&exp)));
+                return;
+            }
+        }
+        rep.eval("C08");
+        rep.eval("C18");
+        let (l, e, tl, te) = (c.len(), SymbolCoder::is_empty(&c), twin.len(), SymbolCoder::is_empty(&twin));
+        if l != tl || e != te {
+            rep.fail("C08", format!("{} | len | empty => {:x} {} but the uninspected twin reports {:x} {}", d, l, e, tl, te));
+            if tl == bs.len() {
+                rep.fail("C18", format!("{} | len | empty => {:x} {} but {:x} bits were written", d, l, e, bs.len()));
+            }
+            return;
+        }
+        if !more.is_empty() {
+            d.push_str(&format!(" | ws {}", show_bits(more)));
+        }
+        for &b in more {
+            c.write_bit(b).unwrap_infallible();
+            twin.write_bit(b).unwrap_infallible();
+        }
+        rep.eval("C08");
+        if !readback {
+            let v = c.into_compressed().unwrap_infallible();
+            let tv = twin.into_compressed().unwrap_infallible();
+            if v != tv {
+                rep.fail("C08", format!("{} | export => {} but the uninspected twin exports {}", d, show_words(&v), show_words(&tv)));
+                return;
+            }
+        } else {
+            rep.eval("C16");
+            let got: Vec<bool> = c.into_decoder().map(|b| b.unwrap_infallible()).collect();
+            let tgot: Vec<bool> = twin.into_decoder().map(|b| b.unwrap_infallible()).collect();
+            if got != tgot {
+                rep.fail("C08", format!("{} | todec | drain => {} but the uninspected twin yields {}", d, show_bits(&got), show_bits(&tgot)));
+                return;
+            }
+            let mut all = bs.to_vec();
+            all.extend(more.iter());
+            all.reverse();
+            if got != all {
+                rep.fail("C16", format!("{} | todec | drain => {} expected the written bits in reverse {}", d, show_bits(&got), show_bits(&all)));
+                return;
+            }
+        }
+    }
+}
+
+/// every n in 0..=3·BITS+2 written bits × 1 or 2 guard views × m ∈ {0, 1, BITS} further bits,
+/// for the queue encoder and the stack coder (non-empty coders first)
+fn oracle_guard_twin<W: BitArray>(rng: &mut Rng, reps: usize, rep: &mut Report) {
+    let w = W::BITS;
+    for n in (1..=(3 * w + 2)).chain(0..1) {
+        for _ in 0..reps {
+            for views in [1usize, 2] {
+                for m in [0usize, 1, w] {
+                    let bs = rand_bits(rng, n);
+                    let more = rand_bits(rng, m);
+                    guard_twin_queue::<W>(&bs, views, &more, rep);
+                    guard_twin_stack::<W>(&bs, views, &more, rep);
+                    if n % w == 0 && n > 0 {
+                        rep.count(&format!("C08.guard_twin.word_multiple.W{}", w));
+                    }
+                }
+            }
+        }
+    }
+    rep.count(&format!("C08.guard_twin.W{}", w));
 }
 
 fn check_golomb<N>(n: u32, v: u128, rng: &mut Rng, rep: &mut Report)
@@ -1919,6 +2070,11 @@ where
 pub fn oracle(rng: &mut Rng, tier: &str, rep: &mut Report) {
     let thorough = tier == "thorough";
     // directed cases first: their replays are the shortest
+    let greps = if thorough { 8 } else { 1 };
+    oracle_guard_twin::<u8>(rng, greps, rep);
+    oracle_guard_twin::<u16>(rng, greps, rep);
+    oracle_guard_twin::<u32>(rng, greps, rep);
+    oracle_guard_twin::<u64>(rng, greps, rep);
     let hist = if thorough { 20000 } else { 1000 };
     oracle_stack_directed::<u8>(rng, hist, rep);
     oracle_stack_directed::<u16>(rng, hist, rep);
